@@ -58,11 +58,68 @@ pub fn module_order(g: &Grammar, text: &str) -> Result<Vec<Vec<(String, String)>
 }
 
 pub fn check_sort(g: &Grammar, text: &str) -> Result<Vec<(&'static str, String)>, String> {
+    check_sort_hist(g, text, 0)
+}
+
+/// histories in front of the sort() that is judged: 1 = sort(), then the first element of each list renamed (through
+/// `rename_item`) to a name that belongs at the end; 2 = sort(), the last element renamed to a name that belongs further
+/// in front; 3 = sort(), write, load, rename as in 1; 4 = sort(), a clone of the last element pushed under a name that
+/// belongs in front. The state reached is then sorted and judged like a freshly loaded file.
+pub const PRE_HISTORIES: [&str; 5] = ["", "sort + rename first to last", "sort + rename last forward", "sort + reload + rename first to last", "sort + push a clone that belongs in front"];
+
+fn pre_history(f: &mut a2lfile::A2lFile, pre: u8) -> Result<(), String> {
+    if pre == 0 {
+        return Ok(());
+    }
+    guard(std::panic::AssertUnwindSafe(|| f.sort())).map_err(|p| format!("panic: {p}"))?;
+    if pre == 3 {
+        let t = write(f).map_err(|p| format!("panic: {p}"))?;
+        match load(&t, None, false) {
+            Loaded::Ok(f2, _) => *f = f2,
+            _ => return Err("machinery: sorted file does not load".into()),
+        }
+    }
+    for m in f.project.module.iter_mut() {
+        macro_rules! edit {
+            ($l:expr, $k:expr) => {{
+                let n = $l.len();
+                if n >= 2 {
+                    match pre {
+                        1 | 3 => {
+                            $l.rename_item(0, &format!("zz{}", $k));
+                        }
+                        2 => {
+                            $l.rename_item(n - 1, &format!("aaa{}", $k));
+                        }
+                        _ => {
+                            let mut c = $l[n - 1].clone();
+                            a2lfile::A2lObjectNameSetter::set_name(&mut c, format!("aaa{}", $k));
+                            $l.push(c);
+                        }
+                    }
+                }
+            }};
+        }
+        edit!(m.measurement, "a");
+        edit!(m.characteristic, "b");
+        edit!(m.compu_method, "c");
+        edit!(m.group, "d");
+        edit!(m.record_layout, "e");
+        edit!(m.unit, "f");
+        edit!(m.axis_pts, "g");
+        edit!(m.function, "h");
+        edit!(m.compu_vtab, "i");
+    }
+    Ok(())
+}
+
+pub fn check_sort_hist(g: &Grammar, text: &str, pre: u8) -> Result<Vec<(&'static str, String)>, String> {
     let mut f = match load(text, None, false) {
         Loaded::Ok(f, _) => f,
         Loaded::Err(e) => return Err(format!("machinery: generated file does not load: {e}")),
         Loaded::Panic(p) => return Err(format!("panic: {p}")),
     };
+    pre_history(&mut f, pre)?;
     let mut out = Vec::new();
     let snaps_before: Vec<_> = f.project.module.iter().map(|m| vcore::dbgtree::parse(&format!("{m:?}")).map(|d| vcore::refsites::snapshot(&d))).collect();
     guard(|| f.sort()).map_err(|p| format!("panic: {p}"))?;
@@ -441,6 +498,35 @@ pub fn run(tier: &str) -> Run {
             run.sample(json!({"label": cases[i].label, "text": short(&cases[i].text, 500)}));
         }
     }
+    // the same documents reached through a history: sorted, edited through the list API (rename_item, push), then sorted again
+    {
+        let hist: Vec<(usize, u8)> = (0..cases.len()).filter(|i| cases[*i].class == "sequence" || cases[*i].class.starts_with("long") || cases[*i].class == "rich" || cases[*i].class == "kind-pair").flat_map(|i| (1..PRE_HISTORIES.len() as u8).map(move |p| (i, p))).collect();
+        let hres = par_map(hist.len(), &|k| check_sort_hist(&g, &cases[hist[k].0].text, hist[k].1), &|k| {
+            println!("MACHINERY-ERROR: C14 history case hangs: {}", cases[hist[k].0].label);
+            std::process::exit(2);
+        });
+        for (k, r) in hres.into_iter().enumerate() {
+            let (i, pre) = hist[k];
+            run.evaluations += 1;
+            run.transitions += 7;
+            run.states.insert(fnv1a(format!("{}|{pre}", cases[i].text).as_bytes()));
+            let pn = PRE_HISTORIES[pre as usize];
+            match r {
+                Err(m) if m.starts_with("machinery") => run.machinery(format!("{} after [{pn}]: {m}", cases[i].label)),
+                Err(p) => run.violation(format!("C14/panic {}", vcore::explore::panic_key(p.trim_start_matches("panic: "))), format!("{} after [{pn}]: {p}", cases[i].label), json!({"text": cases[i].text, "pre": pre})),
+                Ok(vs) => {
+                    if vs.is_empty() {
+                        run.outcome("history: sorted correctly");
+                    }
+                    for (o, w) in vs {
+                        run.outcome("history: violation");
+                        run.violation(format!("C14/{o}/history:{}/{}", pn.replace(' ', "-"), cases[i].class), format!("{} after [{pn}]: {w}", cases[i].label), json!({"text": cases[i].text, "pre": pre}));
+                    }
+                }
+            }
+        }
+        run.require("history: sorted correctly", 5000);
+    }
     run.require("sequence: sorted correctly", 5000);
     run.require("kind-pair: sorted correctly", 400);
     run.rule = "all duplicate-free sequences of up to 3 (thorough 4) elements over 6 kinds x the names {aa, ab, b, ba}; every ordered pair of the 22 module-level list kinds (two unsorted elements each) with and without comments; each singleton at every position; two modules in both orders; comments (4 shapes) directly inside PROJECT at every child position x /end PROJECT on its own line / on the line of the last /end MODULE; the rich corpus documents. Oracle: every list holds the same elements (content) after sort(); in the written text each kind is contiguous and names ascend within a kind; the written file reloads to an equal model in equal list order and is a textual fixpoint; a second sort() changes neither model nor text.".into();
@@ -450,7 +536,7 @@ pub fn run(tier: &str) -> Run {
 
 pub fn replay(v: &Value) -> Result<String, String> {
     let g = crate::corpus::grammar();
-    let vs = check_sort(&g, v["text"].as_str().ok_or("no text")?)?;
+    let vs = check_sort_hist(&g, v["text"].as_str().ok_or("no text")?, v["pre"].as_u64().unwrap_or(0) as u8)?;
     if vs.is_empty() {
         Ok("sorted correctly".into())
     } else {
